@@ -151,37 +151,58 @@ func keReader(spec Val, stream []byte) *bufio.Reader {
 }
 
 // runs ReadData `calls` times on one reader and one Data (stopping at the first error):
-// per call [data, error class]; then the unread rest of the stream when no call failed
+// per call [data, error class]; then what is left unread of the stream, also after an error
 func keRun(spec Val, stream []byte, d0 Val, calls int) Val {
 	rd := keReader(spec, stream)
 	d := keDataFrom(d0)
 	var res []Val
-	failed := false
 	for i := 0; i < calls; i++ {
 		err := ntske.ReadData(context.Background(), discardLog, rd, &d)
 		res = append(res, VL(keDataVal(&d), VI(keErrClass(err))))
 		if err != nil {
-			failed = true
 			break
 		}
 	}
-	rest := []byte{}
-	if !failed {
-		rest, _ = io.ReadAll(rd)
-	}
+	rest, _ := io.ReadAll(rd)
 	return VL(VL(res...), VBy(rest))
+}
+
+// offsets of the record headers of a packed message
+func recordOffsets(s []byte) []int {
+	var off []int
+	pos := 0
+	for len(s)-pos >= 4 {
+		off = append(off, pos)
+		pos += 4 + (int(s[pos+2])<<8 | int(s[pos+3]))
+	}
+	return off
 }
 
 // ke.records: [records], trailing bytes, data, calls, [segmentations] -> packed stream, [result per segmentation]
 func runKeRecords(tags string, a []Val) {
+	// records this code can pack go through ExchangeMsg.Pack; a record of a type it does not
+	// know ([8 type body], as another implementation may send it) is written by hand
+	buf := new(bytes.Buffer)
 	var msg ntske.ExchangeMsg
+	flush := func() {
+		part, err := msg.Pack()
+		if err != nil {
+			panic(err)
+		}
+		buf.Write(part.Bytes())
+		msg = ntske.ExchangeMsg{}
+	}
 	for _, r := range a[0].L {
+		if r.L[0].Int() == 8 {
+			flush()
+			t, body := uint16(r.L[1].Uint()), r.L[2].B
+			buf.Write([]byte{byte(t >> 8), byte(t), byte(len(body) >> 8), byte(len(body))})
+			buf.Write(body)
+			continue
+		}
 		msg.AddRecord(keRecord(r))
 	}
-	buf, err := msg.Pack()
-	if err != nil {
-		panic(err)
-	}
+	flush()
 	stream := append(append([]byte(nil), buf.Bytes()...), a[1].B...)
 	var res []Val
 	for _, spec := range a[4].L {
@@ -228,18 +249,22 @@ func genKeData(r *lib.Rng) Val {
 }
 
 func genCookieLen(r *lib.Rng) int {
-	return lib.Pick(r, 0, 1, 2, 3, 4, 100, 104, 124, 128, 255, 256, r.Intn(40), r.Intn(600), 4095, 4096, 4097, 5000)
+	return lib.Pick(r, 0, 1, 2, 3, 4, 100, 104, 124, 128, 255, 256, 257, 300, 1000, r.Intn(40), r.Intn(600), 4095, 4096, 4097, 5000)
 }
 
 // a canonical record other than End
 func genCanonical(r *lib.Rng) Val {
-	switch r.Intn(8) {
+	switch r.Intn(9) {
+	case 8: // a record type this code does not know, not critical: to be skipped
+		return VL(VI(8), VI(int64(lib.Pick(r, 8, 9, 100, 0x3fff, 0x7fff, 8+r.Intn(32760)))),
+			VBy(r.Bytes(lib.Pick(r, 0, 1, 2, r.Intn(20), 255, 256, 257, 300, 1000))))
 	case 0:
 		return VL(VI(1), VU(genU(r, 16)))
 	case 1:
 		return VL(VI(4), VL(VU(genU(r, 16))))
 	case 2:
-		return VL(VI(6), VBy([]byte(lib.Pick(r, "127.0.0.1", "ntp.example.org", "", "[::1]", string(r.Bytes(r.Intn(70)))))), VBool(r.Bool()))
+		return VL(VI(6), VBy([]byte(lib.Pick(r, "127.0.0.1", "ntp.example.org", "", "[::1]", string(r.Bytes(r.Intn(70))),
+			string(r.Bytes(lib.Pick(r, 255, 256, 257, 300, 1000)))))), VBool(r.Bool()))
 	case 3:
 		return VL(VI(7), VU(genU(r, 16)), VBool(r.Bool()))
 	default:
@@ -318,7 +343,9 @@ func genNtske(r *lib.Rng, thorough bool) {
 	for k := 0; k < n; k++ {
 		var msg ntske.ExchangeMsg
 		for _, x := range append(genKeMessage(r), VL(VI(0))) {
-			msg.AddRecord(keRecord(x))
+			if x.L[0].Int() != 8 {
+				msg.AddRecord(keRecord(x))
+			}
 		}
 		buf, _ := msg.Pack()
 		s := append([]byte(nil), buf.Bytes()...)
@@ -336,16 +363,28 @@ func genNtske(r *lib.Rng, thorough bool) {
 			if r.Bool() {
 				t |= 0x8000
 			}
-			body := r.Bytes(r.Intn(20))
-			s = append(append([]byte{byte(t >> 8), byte(t), 0, byte(len(body))}, body...), s...)
+			body := r.Bytes(lib.Pick(r, r.Intn(20), r.Intn(20), 255, 256, 257, 300, 1000))
+			u := append([]byte{byte(t >> 8), byte(t), byte(len(body) >> 8), byte(len(body))}, body...)
+			if r.Bool() { // in front, or between two records
+				s = append(u, s...)
+			} else {
+				off := recordOffsets(s)
+				at := off[r.Intn(len(off))]
+				s = append(append(append([]byte(nil), s[:at]...), u...), s[at:]...)
+			}
 			tags = "nt,unknownrec"
 		case 3:
 			s = r.Bytes(r.Intn(40))
 			tags = "random"
-		case 4: // a length field that lies
-			if len(s) >= 12 {
-				s[11] ^= byte(1 + r.Intn(255))
+		case 4: // the length field of one record lies (low or high byte)
+			off := recordOffsets(s)
+			i := off[r.Intn(len(off))]
+			if r.Intn(4) == 0 {
+				s[i+2] ^= byte(1 << uint(r.Intn(3)))
+			} else {
+				s[i+3] ^= byte(1 + r.Intn(255))
 			}
+			tags = "nt,lyinglen"
 		default:
 			if len(s) > 4 {
 				i := r.Intn(len(s) / 4)
@@ -357,6 +396,8 @@ func genNtske(r *lib.Rng, thorough bool) {
 	// bodies whose length needs the top bit of the 16-bit length field
 	for k := 0; k < 2; k++ {
 		rs := []Val{VL(VI(1), VI(0)), VL(VI(4), VL(VI(15))), VL(VI(5), VBy(r.Bytes(lib.Pick(r, 32768, 40000, 65535)))), VL(VI(0))}
+		runKeRecords("nt,canon,large", []Val{VL(rs...), VBy(nil), genKeData(r), VI(1), VL(VL(VI(0)), VL(VI(2)))})
+		rs = []Val{VL(VI(1), VI(0)), VL(VI(6), VBy(r.Bytes(lib.Pick(r, 32768, 65535))), VBool(r.Bool())), VL(VI(0))}
 		runKeRecords("nt,canon,large", []Val{VL(rs...), VBy(nil), genKeData(r), VI(1), VL(VL(VI(0)), VL(VI(2)))})
 	}
 	// a body longer than its 16-bit length field can say
